@@ -41,6 +41,77 @@ def body_nodoc(fn):
 
 
 
+# ---------------------------------------------------------------------------------------------
+# Reference fall-back (false-alarm guard).
+#
+# The syntactic front ends accept a small source language. A harmless rewrite of the source (a helper extracted, an idiom changed) can
+# leave that language although the behaviour is unchanged. In that case the IR of the pinned commit (harness/translators/ref/<name>.json,
+# committed, written by `python3 harness/translate.py --write-ref` on the unchanged tree) is used instead, and the tie to the code is the
+# SAME front-end validation that runs in the normal mode: the IR is evaluated against the live, imported module (`validate`), plus the
+# differential correspondence of the check itself. If the validation of the reference IR fails, the tie is broken as before.
+# Which mode was used is recorded in MODES and ends up in the evidence file of the check.
+# ---------------------------------------------------------------------------------------------
+from fractions import Fraction
+REFDIR = Path(__file__).resolve().parent / "translators" / "ref"
+MODES = {}
+
+
+def _enc(x):
+    if isinstance(x, Fraction):
+        return {"__frac__": [x.numerator, x.denominator]}
+    if isinstance(x, dict):
+        if not all(isinstance(k, str) or k is None for k in x):
+            raise TypeError("non-string key in IR")
+        return {("__none__" if k is None else k): _enc(v) for k, v in x.items()}
+    if isinstance(x, (list, tuple)):
+        return [_enc(v) for v in x]
+    if isinstance(x, (str, int, float, bool)) or x is None:
+        return x
+    raise TypeError(f"IR value {x!r} cannot be stored")
+
+
+def _dec(x):
+    if isinstance(x, dict):
+        if set(x) == {"__frac__"}:
+            return Fraction(x["__frac__"][0], x["__frac__"][1])
+        return {(None if k == "__none__" else k): _dec(v) for k, v in x.items()}
+    if isinstance(x, list):
+        return [_dec(v) for v in x]
+    return x
+
+
+def save_ref(name, ir):
+    REFDIR.mkdir(parents=True, exist_ok=True)
+    write_if_changed(REFDIR / f"{name}.json", json.dumps(_enc(ir), indent=1, sort_keys=True) + "\n")
+
+
+def load_ref(name):
+    p = REFDIR / f"{name}.json"
+    if not p.exists():
+        return None
+    return _dec(json.loads(p.read_text()))
+
+
+def with_reference(name, front_end, validate):
+    """IR of translator `name`: from the syntactic front end, or - when the source left the accepted language - the reference IR;
+    in both cases validated against the live module. Raises TranslationError when neither describes the live code."""
+    try:
+        ir = front_end()
+        MODES[name] = {"mode": "translated from the current source text"}
+    except TranslationError as e:
+        ref = load_ref(name)
+        if ref is None:
+            raise
+        ir = ref
+        MODES[name] = {"mode": "reference IR of the pinned commit, validated against the live module", "front_end_refused": str(e)[:300]}
+    errs = validate(ir)
+    if errs:
+        pre = "front-end validation failed: " if MODES[name]["mode"].startswith("translated") else \
+            f"source left the translator's language ({MODES[name]['front_end_refused']}) and the reference tables do not describe the live module: "
+        raise TranslationError(pre + "; ".join(errs[:5]))
+    return ir
+
+
 ALL = ("tables", "gates", "pauli", "wmiconfig", "vqe")   # every translator module in harness/translators/ that setup.sh should run
 
 
@@ -59,4 +130,11 @@ def regenerate(which=ALL):
 
 if __name__ == "__main__":
     import sys
+    if "--write-ref" in sys.argv:
+        import importlib
+        for name in ALL:
+            m = importlib.import_module("translators." + name)
+            save_ref(name, m.reference_ir())
+            print("reference IR written:", name)
+        sys.exit(0)
     print(json.dumps(regenerate(tuple(sys.argv[1:]) or ALL), indent=1, default=str)[:4000])
